@@ -1569,7 +1569,7 @@ func Inflate(p *Program, r *rand.Rand, kind string) (*Program, string) {
 			m = q.Procs[0].T.M
 		}
 		f := &Func{Name: "manyp", Ret: Unit(m)}
-		body := &Term{Op: "close", X: "self"}
+		body := &Term{Op: "print", Lbl: "manypran", Cont: &Term{Op: "close", X: "self"}}
 		for j := n - 1; j >= 0; j-- {
 			body = &Term{Op: "wait", X: fmt.Sprintf("mp%d", j), Cont: body}
 		}
@@ -1585,6 +1585,27 @@ func Inflate(p *Program, r *rand.Rand, kind string) (*Program, string) {
 		}
 		q.Funcs = append(q.Funcs, f)
 		q.Procs = append(q.Procs, &Proc{Names: []string{"manypuser"}, T: Unit(m), Body: top})
+		if n >= 10 {
+			// a second function whose name is the first one's followed by the leading digit of
+			// its arity: manyp with 1x parameters next to manyp1 with x parameters
+			g := &Func{Name: "manyp1", Ret: Unit(m)}
+			gb := &Term{Op: "print", Lbl: "manyp1ran", Cont: &Term{Op: "close", X: "self"}}
+			call1 := &Term{Op: "call", Fn: "manyp1"}
+			var top1 *Term = call1
+			for j := n - 10 - 1; j >= 0; j-- {
+				gb = &Term{Op: "wait", X: fmt.Sprintf("mq%d", j), Cont: gb}
+			}
+			for j := 0; j < n-10; j++ {
+				g.Params = append(g.Params, Var{N: fmt.Sprintf("mq%d", j), T: Unit(m)})
+				call1.Args = append(call1.Args, fmt.Sprintf("mb%d", j))
+			}
+			for j := n - 10 - 1; j >= 0; j-- {
+				top1 = &Term{Op: "new", Y: fmt.Sprintf("mb%d", j), Ann: Unit(m), Body: &Term{Op: "close", X: "self"}, Cont: top1}
+			}
+			g.Body = gb
+			q.Funcs = append(q.Funcs, g)
+			q.Procs = append(q.Procs, &Proc{Names: []string{"manyp1user"}, T: Unit(m), Body: top1})
+		}
 	}
 	q.Feat = map[string]int{}
 	for k, v := range p.Feat {
